@@ -7,7 +7,7 @@ from hypothesis import strategies as st
 from .. import gen, model, norm
 from ..common import lib
 from ..core import require
-from ..spec import build, kinds, walk_spec
+from ..spec import build, kinds, relabeled, walk_spec
 
 ID = "C01"
 BUDGET = {"quick": (4, 500), "thorough": (16, 6000)}
@@ -16,7 +16,8 @@ RULE = (
     "slot), a stream of 0..30 (quick) / 0..60 (thorough) weighted rows drawn from the tree's critical-value alphabets "
     "(edges, midpoints, thresholds +-k ulps, NaN, +-inf; weights incl. 0, negative, NaN), sorted cut points with "
     "repetitions (1..6 chunks, empty chunks allowed), a permutation of the partial results, a reduction schedule (any "
-    "parenthesisation), how the empty partials are made (constructor / zero() / copy()) and the API (fill vs "
+    "parenthesisation), how the empty partials are made (constructor / zero() / copy() / constructor with the Label "
+    "keys given in the opposite order) and the API (fill vs "
     "histogrammar.defs.increment, + vs combine).  Oracle: fill-all == reduce(partials); B+zero == B == zero+B; "
     "P+Q == Q+P; (P+Q)+R == P+(Q+R); zero() has the document of a fresh tree.  Non-trivial: >= 2 chunks each holding "
     "a positively weighted row and the rows reach >= 2 different leaves; distinct by sha1 of the canonical case."
@@ -49,6 +50,8 @@ def strategy(tier):
             "fresh": draw(st.sampled_from(("build", "zero", "copy"))),
             # content-preserving detours a partial result may take before it is merged ("every reachable state")
             "detour": [draw(st.sampled_from(("none", "none", "none", "copy", "reload", "pickle", "times1", "plus-zero"))) for _ in range(k)],
+            # a partial result may come from a tree whose Label keys were given in another order
+            "relabel": [draw(st.integers(0, 3)) == 0 for _ in range(k)],
             "fill_api": draw(st.sampled_from(("fill", "fill", "increment"))),
             "merge_api": draw(st.sampled_from(("+", "+", "combine"))),
         }
@@ -91,8 +94,11 @@ def check(case):
     chunks = gen.split(stream, case["cuts"])
     template = build(spec)
     partials = []
-    for ch in chunks:
-        if case["fresh"] == "zero":
+    relabel = case.get("relabel", [])
+    for n_, ch in enumerate(chunks):
+        if n_ < len(relabel) and relabel[n_]:
+            h = build(relabeled(spec))
+        elif case["fresh"] == "zero":
             h = template.zero()
         elif case["fresh"] == "copy":
             h = template.copy()
